@@ -273,7 +273,7 @@ func C18(c *runner.Cfg) *report.Result {
 	// the differential part
 	var next atomic.Int64
 	var wg sync.WaitGroup
-	var failing, mism atomic.Int64
+	var failing, mism, reqBuilt atomic.Int64
 	only := c.OnlyIndex("C18/prog")
 	for g := 0; g < G; g++ {
 		wg.Add(1)
@@ -322,6 +322,17 @@ func C18(c *runner.Cfg) *report.Result {
 						res.Violate("c18:result-differs-from-sequential", fmt.Sprintf("program %d produced different bytes when run concurrently with other pool users: first difference at offset %d (len %d vs %d)", i, dd, len(got), len(want)), wit)
 					}
 				}
+				// the pooled multi-call request builder: two requests alive at once, freed (also twice:
+				// Free is idempotent), each must contain exactly its own calls
+				if i%8 == 0 {
+					var problem string
+					if pv, stack := runner.Catch(func() { problem = requestBuilders(i) }); pv != nil {
+						res.Violate("c18:"+runner.PanicKey(pv, stack), fmt.Sprintf("rpc.Request builders of program %d panicked: %v", i, pv), runner.TrimStack(stack))
+					} else if problem != "" {
+						res.Violate("c18:rpc-request-builder-shares-state", fmt.Sprintf("program %d: %s", i, problem), nil)
+					}
+					reqBuilt.Add(2)
+				}
 				slot.Done()
 				if i < 3 {
 					res.Sample(map[string]any{"index": i, "writer_mode": p.mode.String(), "fail_kind": p.fail, "program": p.root.String()})
@@ -337,6 +348,7 @@ func C18(c *runner.Cfg) *report.Result {
 		res.Violate("c18:stall", fmt.Sprintf("background traffic did not finish within %v:\n%s", Watchdog, Goroutines(8)), nil)
 	}
 	res.Count("failing_programs", failing.Load())
+	res.Count("rpc_request_builders_checked", reqBuilt.Load())
 	res.Count("exchanges", exchanges.Load())
 	res.Count("delivery_messages", d.recv[0].Load()+d.recv[1].Load())
 	res.Observe("goroutines", G)
@@ -357,4 +369,55 @@ func C18(c *runner.Cfg) *report.Result {
 		}
 	}
 	return res
+}
+
+// requestBuilders builds two multi-call requests at the same time with the pooled rpc.Request
+// builder and returns a description of the first difference between what a request contains and
+// what was added to it.
+func requestBuilders(i int) string {
+	r1, r2 := rpc.NewRequest(), rpc.NewRequest()
+	n1, n2 := 1+i%3, 1+(i/3)%3
+	name := func(r, k int) string { return fmt.Sprintf("p%d.r%d.call%d", i, r, k) }
+	for k := 0; k < n1 || k < n2; k++ {
+		if k < n1 {
+			if st := r1.AddEmpty(name(1, k)); !st.OK() {
+				return fmt.Sprintf("AddEmpty: %v", st)
+			}
+		}
+		if k < n2 {
+			if st := r2.AddEmpty(name(2, k)); !st.OK() {
+				return fmt.Sprintf("AddEmpty: %v", st)
+			}
+		}
+	}
+	check := func(r *rpc.Request, which, n int) string {
+		req, st := r.Build()
+		if !st.OK() {
+			return fmt.Sprintf("Build of request %d: %v", which, st)
+		}
+		calls := req.Calls()
+		if calls.Len() != n {
+			var got []string
+			for k := 0; k < calls.Len() && k < 8; k++ {
+				got = append(got, string(calls.Get(k).Method()))
+			}
+			return fmt.Sprintf("request %d has %d calls %v, %d were added", which, calls.Len(), got, n)
+		}
+		for k := 0; k < n; k++ {
+			if m := string(calls.Get(k).Method()); m != name(which, k) {
+				return fmt.Sprintf("request %d call %d is %q, added %q", which, k, m, name(which, k))
+			}
+		}
+		return ""
+	}
+	p1, p2 := check(r1, 1, n1), check(r2, 2, n2)
+	r1.Free()
+	r2.Free()
+	if i%16 == 0 {
+		r1.Free() // idempotent by contract
+	}
+	if p1 != "" {
+		return p1
+	}
+	return p2
 }
